@@ -11,6 +11,7 @@ import os
 import random
 import re
 import sys
+from concurrent.futures import ThreadPoolExecutor
 
 sys.path.insert(0, os.path.dirname(os.path.abspath(__file__)))
 from common import *  # noqa
@@ -395,7 +396,7 @@ def gen_block(rng, kind):
     if kind == "free1":
         return [gen_free(rng)]
     if kind == "f7":
-        pre = [gen_free(rng) for _ in range(rng.choice([0, 1]))]
+        pre = [x for x in (gen_free(rng) for _ in range(rng.choice([0, 1]))) if x["kind"] == "free"]
         return pre + [gen_annot(rng, f7=True)] + [gen_annot(rng) for _ in range(rng.choice([0, 1]))]
     n = rng.choice([0, 1, 2, 3, 3, 4, 5, 6, 8])
     items = []
@@ -513,6 +514,7 @@ def evaluate(blocks, tag="cases"):
     j5ans = dict(zip(tl, j5))
     res = dict(impl=impl, disagree=[], propfail=[], wffail=[], tags=[], j5ans=j5ans)
     SH = 300
+    jobs = []
     for lo in range(0, len(blocks), SH):
         chunk = range(lo, min(lo + SH, len(blocks)))
         used = {}
@@ -533,7 +535,11 @@ def evaluate(blocks, tag="cases"):
             cs.append("(%d, %s, %s)" % (i, body, coq_obs(impl[i])))
         text = HEADER + "Definition tbl : list (str * option str) :=\n " + tbl + ".\n" + \
             "Definition cases : list case :=\n [" + ";\n  ".join(cs) + "].\n" + FOOTER
-        out = run_coq_file(PROP, "%s_%d" % (tag, lo), text)
+        jobs.append(("%s_%d" % (tag, lo), text))
+    # the chunks are independent Coq files: evaluate a few at a time
+    with ThreadPoolExecutor(max_workers=min(6, max(1, len(jobs)))) as ex:
+        outs = list(ex.map(lambda j: run_coq_file(PROP, j[0], j[1]), jobs))
+    for out in outs:
         res["disagree"] += parse_nat_list(out, "disagree")
         res["propfail"] += parse_nat_list(out, "propfail")
         res["wffail"] += parse_nat_list(out, "wffail")
